@@ -41,6 +41,8 @@ SHAPES = {
     "diff-size-newer": {"src": {"files": {"c.txt": F("AAAAAA", 100)}, "doc": None}, "dst": {"files": {"c.txt": F("BB", 0)}, "doc": None}},
     "diff-nested-newer": {"src": {"files": {"sub/c.txt": F("AAAAAA", 100), "sub/only.txt": F("SO")}, "doc": None},
                           "dst": {"files": {"sub/c.txt": F("BB", 0)}, "doc": None}},
+    "diff-nested-samesize-equal": {"src": {"files": {"sub/c.txt": F("AAAA", 0), "sub/deeper/c.txt": F("CCCC", 0)}, "doc": None},
+                                   "dst": {"files": {"sub/c.txt": F("BBBB", 0), "sub/deeper/c.txt": F("DDDD", 0)}, "doc": None}},
     "diff-nested-older": {"src": {"files": {"sub/c.txt": F("AAAAAA", -100)}, "doc": None}, "dst": {"files": {"sub/c.txt": F("BB", 0)}, "doc": None}},
     "diff-excluded-name": {"src": {"files": {"skip.log": F("AAAAAA", 100), "ok.txt": F("same")}, "doc": None},
                            "dst": {"files": {"skip.log": F("BB", 0), "ok.txt": F("same")}, "doc": None}},
@@ -208,6 +210,11 @@ def evaluate_case(case):
     def bad(prop, kind, msg, **extra):
         viol.append({"prop": prop, "sig": dict(kind=kind, **extra), "scenario": entry, "input": inp,
                      "expected": "see message", "observed": msg, "msg": msg})
+        if prop == "C14" and opts.get("deep") and kind in ("conflict-not-reported", "strategy-verdict-not-honoured",
+                                                            "conflicting-file-overwritten-without-strategy"):
+            # "deep=True compares by content at job and project level" is a clause of C15 as well
+            viol.append({"prop": "C15", "sig": dict(kind="deep-not-honoured", via=kind), "scenario": entry, "input": inp,
+                         "expected": "see message", "observed": msg, "msg": msg})
     with scratch.fresh("sync") as root:
         with env.listing_order(opts.get("order", "sorted")):
             ids = build(root, shapes, pdoc)
@@ -421,11 +428,19 @@ def evaluate_case(case):
                 for i in scope:
                     sh = SHAPES[shapes[i]]
                     if "dst" not in sh or shapes[i] == "doc-mixed-type":
-                        if shapes[i] == "doc-mixed-type" and outcome != "ok":
-                            dnow = read_doc(pd, ids[i])
-                            if dnow != docs_before[i]:
+                        if shapes[i] == "doc-mixed-type":
+                            dnow, dold = read_doc(pd, ids[i]), docs_before[i]
+                            if outcome != "ok" and dnow != dold:
                                 bad("C14", "document-not-rolled-back", f"job {i}: after {outcome} the document is {dnow}, "
-                                    f"before {docs_before[i]}", outcome=outcome)
+                                    f"before {dold}", outcome=outcome)
+                            if outcome == "ok":
+                                # the key 'm' (scalar in the destination, mapping in the source) differs: it may only be
+                                # overwritten if the key strategy selects it (update: always, NO_SYNC: never)
+                                want_over = opts["doc_sync"] == "update" or key_selected(opts["doc_sync"], "m")
+                                if (dnow or {}).get("m") != (dold or {}).get("m") and not want_over:
+                                    bad("C14", "doc-key-strategy-not-honoured", f"job {i}: key 'm' ({dold.get('m')!r} vs source "
+                                        f"mapping) with {opts['doc_sync']} must be kept, document is {dnow}",
+                                        doc_sync=opts["doc_sync"], depth=1, want_overwrite=False, mixed_type=True)
                         continue
                     dnow, dold = read_doc(pd, ids[i]), docs_before[i]
                     fs, fo, fn_ = flat(sh["src"]["doc"]), flat(dold), flat(dnow)
